@@ -28,6 +28,16 @@ package config
 //@   ensures [reads-what-was-written] err == nil ==> d.Duration == durParse(strOf(val(text)))
 //@   ensures [accepts-what-MarshalText-writes] forall x :: strOf(val(text)) == durStr(x) ==> err == nil && d.Duration == x
 
+// every registered flag is bound to its configuration key, whether or not it was given on the command line:
+// the values of all flags - defaults included - are among the settings that every load decodes over the
+// configuration it starts from
+//@ func bindFlags$2(f)
+//@   property C18
+//@   observe be := call BindEnv
+//@   observe bp := call BindPFlag
+//@   modifies heap "error"
+//@   ensures [every-flag-bound] bp.count == 1 && bp.arg2 == f && be.count == 1
+
 //@ func (cfg *InstrumentationConfig) ValidateBasic() (err)
 //@   property C18
 //@   nopanic
